@@ -7,8 +7,8 @@
 EXTENDS Links, IOUtils
 Obs == JsonDeserialize(IOEnv.OBS_FILE)
 VARIABLE i
-jvars == <<fam, e, tree, xid, key, keys, out, i>>
-JInit == i \in 1..Len(Obs) /\ fam = "judge" /\ e = <<>> /\ tree = Null /\ xid = "" /\ key = "" /\ keys = {} /\ out = Pending
+jvars == <<fam, e, tree, lnk, xid, key, keys, out, i>>
+JInit == i \in 1..Len(Obs) /\ fam = "judge" /\ e = <<>> /\ tree = Null /\ lnk = NoLink /\ xid = "" /\ key = "" /\ keys = {} /\ out = Pending
 JNext == UNCHANGED jvars
 JSpec == JInit /\ [][JNext]_jvars
 
@@ -23,9 +23,9 @@ StatusSound(r) == SeqSet(r.matched) \subseteq {s \in Statuses : LinkMatches(r.ke
 
 HasSub(s, sub) == \E n \in 1..(Len(s) - Len(sub) + 1) : SubSeq(s, n, n + Len(sub) - 1) = sub
 Marker == <<85, 110, 114, 101, 115, 111, 108, 118, 97, 98, 108, 101>>              \* "Unresolvable"
-ParamOK(p, x) == LET exp == Eval(p.expr, x) IN
+ParamOK(p, x, strict) == LET exp == Eval(p.expr, x) IN
                    IF exp.k = "val" /\ exp.v.t \in {"str", "int"} THEN p.sent /\ p.text = TextOf(exp)
-                   ELSE IF exp.k \in {"unres", "malformed", "badptr"} THEN ~HasSub(p.text, Marker)
+                   ELSE IF exp.k \in {"unres", "malformed", "badptr"} THEN ~HasSub(p.text, Marker) /\ (strict => ~p.sent)
                    ELSE TRUE
 BodyOK(b, x) == ~b.has \/ LET exp == EvalTree(b.def, x) IN
                             IF exp.t = "unres" THEN (b.strict => b.sent.t = "none")   \* nothing of the link is passed on
@@ -36,8 +36,9 @@ StatusOK(r) == LinkMatches(r.key, r.x.status, SeqSet(r.keys))
 Report == LET r == Obs[i] IN
             IF r.kind = "expr" THEN (IF AgreeExpr(Eval(r.e, r.x), r.obs) THEN TRUE ELSE PrintT(<<"DISAGREE", i, "expr", 0>>))
             ELSE IF r.kind = "tree" THEN (IF AgreeExpr(TreeResult(r.tree, r.x), r.obs) THEN TRUE ELSE PrintT(<<"DISAGREE", i, "tree", 0>>))
+            ELSE IF r.kind = "link" THEN (IF LinkVerdict(r.link) \in {"U", r.obs} THEN TRUE ELSE PrintT(<<"DISAGREE", i, "link", 0>>))
             ELSE IF r.kind = "status" THEN (IF StatusSound(r) THEN TRUE ELSE PrintT(<<"DISAGREE", i, "status", 0>>))
             ELSE /\ IF StatusOK(r) THEN TRUE ELSE PrintT(<<"DISAGREE", i, "live-status", 0>>)
                  /\ IF BodyOK(r.body, r.x) THEN TRUE ELSE PrintT(<<"DISAGREE", i, "live-body", 0>>)
-                 /\ \A n \in 1..Len(r.params) : IF ParamOK(r.params[n], r.x) THEN TRUE ELSE PrintT(<<"DISAGREE", i, "live-param", n>>)
+                 /\ \A n \in 1..Len(r.params) : IF ParamOK(r.params[n], r.x, r.body.strict) THEN TRUE ELSE PrintT(<<"DISAGREE", i, "live-param", n>>)
 =============================================================================
